@@ -24,18 +24,19 @@ def c13_groups(tier, tag='C13'):
     Ms = list(C13_LISTED)
     if tier == 'thorough':
         rnd = random.Random(int(os.environ.get('VERIF_SEED', '0') or 0))
-        # all of [2,256], every power of two, seeded values: 60 in [257,4096] (0.5-15 s each), 40 in (4096, 32768] (100-170 s each: the constant divider)
-        Ms += list(range(2, 257)) + [1 << k for k in range(1, 32)] + [rnd.randrange(257, 4097) for _ in range(60)] + [rnd.randrange(4097, 32769) for _ in range(40)]
+        # all of [2,256], every power of two, seeded values: 60 in [257,4096] (0.5-15 s each), 24 in (4096, 32768] (100-170 s each: the constant divider)
+        Ms += list(range(2, 257)) + [1 << k for k in range(1, 32)] + [rnd.randrange(257, 4097) for _ in range(60)] + [rnd.randrange(4097, 32769) for _ in range(24)]
         Ms = sorted(set(Ms))
     gs = []
     for M in Ms:
         d = {'VERIF_MSIZE': '%du' % M}
+        big = {'timeout': 3600} if M > 4096 else {}     # the constant divider: 100-170 s each on an idle machine, several times that under load
         gs.append(Group('%s.modSwitchFromTorus32.M=%d' % (tag, M), 'c13_numeric.c', 'h_modSwitchFromTorus32',
-                        extract=[(NF, 'modSwitchFromTorus32')], enforce='modSwitchFromTorus32', defines=d, replay='numeric', instance={'Msize': M}))
+                        extract=[(NF, 'modSwitchFromTorus32')], enforce='modSwitchFromTorus32', defines=d, replay='numeric', instance={'Msize': M}, **big))
         gs.append(Group('%s.modSwitchToTorus32.M=%d' % (tag, M), 'c13_numeric.c', 'h_modSwitchToTorus32',
                         extract=[(NF, 'modSwitchToTorus32')], enforce='modSwitchToTorus32', defines=d, replay='numeric', instance={'Msize': M}))
         gs.append(Group('%s.roundtrip.M=%d' % (tag, M), 'c13_numeric.c', 'h_approx_roundtrip',
-                        extract=[(NF, 'modSwitchFromTorus32'), (NF, 'modSwitchToTorus32'), (NF, 'approxPhase')], defines=d, replay='numeric', instance={'Msize': M}))
+                        extract=[(NF, 'modSwitchFromTorus32'), (NF, 'modSwitchToTorus32'), (NF, 'approxPhase')], defines=d, replay='numeric', instance={'Msize': M}, **big))
     gs.append(Group(tag + '.t32tod', 'c13_numeric.c', 'h_t32tod', extract=[(NF, 't32tod')], enforce='t32tod', replay='numeric'))
     gs.append(Group(tag + '.conversion', 'c13_numeric.c', 'h_conversion', extract=[(NF, 't32tod'), (NF, 'dtot32')], replay='numeric'))
     return gs
@@ -892,7 +893,7 @@ PROPS = {
         'level': 'proof',
         'explanation': 'Each group is a complete proof over all 2^32 phases / all mu in [0,M) for one constant message-space size M '
                        '(the 64-bit divider with a symbolic divisor does not terminate in any installed solver, so M is enumerated).',
-        'assumptions': STD_ASSUME + ['message-space sizes outside the enumerated list (quick: the 13 values of the property; thorough: [2,256], all 2^k, 100 seeded values in [257,2^15]) are not covered'],
+        'assumptions': STD_ASSUME + ['message-space sizes outside the enumerated list (quick: the 13 values of the property; thorough: [2,256], all 2^k, 84 seeded values in [257,2^15]) are not covered'],
         'trusted': [],
     },
     'C14': {
